@@ -2,8 +2,8 @@
    Only statements, [exact] and [Print Assumptions] live here. *)
 From Coq Require Import List Arith Bool NArith.
 From GV Require Import Base.Result Gen.TokenTypes Gen.Defs Model.Parser Spec.Layout Spec.LayoutSim
-  Proofs.C03.Bounded4 Proofs.C18.Bounded Proofs.C18.Sim Proofs.C18.Trim Proofs.C18.Main Proofs.C18.Settled
-  Proofs.C18.SettledBounded Proofs.C18.Insert Proofs.C18.Summary.
+  Proofs.C03.Bounded4 Proofs.C18.Bounded Proofs.C18.Sim Proofs.C18.Trim Proofs.C18.Main
+  Proofs.C18.Insert Proofs.C18.Always.
 Import ListNotations.
 
 (* The parser model takes a list of token TYPES: the text of a whitespace run, of an
@@ -66,94 +66,56 @@ Theorem C18_trim_ends : forall a s b : list token_type,
 Proof. exact parse_tree_trim_ends. Qed.
 Print Assumptions C18_trim_ends.
 
-(* general form: the gap starts in a state where the "finished side-effect block"
-   adjustment of last_left has settled (Spec/LayoutSim.v [settled_after]) *)
-Theorem C18_trivia_runs_equivalent : forall pre post : list token_type,
-  has_sig pre = true -> has_sig post = true -> settled_after (drop_while_trim pre) ->
-  trivia_runs_equivalent_at pre post.
-Proof. exact trivia_runs_equivalent. Qed.
-Print Assumptions C18_trivia_runs_equivalent.
+(* Before its first real work on a token, [step] moves last_left from a closed side-effect
+   block that hangs under a parent and took no left operand to that parent.
+   [settled_after pre] (Spec/LayoutSim.v): in the state after the prefix [pre], doing that
+   once more changes nothing.  It holds after EVERY prefix (parser-state invariant: node ids grow,
+   everything created after an open group hangs inside it, so the parent walk never climbs
+   past the innermost open group, open groups are never re-parented, and a side-effect
+   block under a left-less side-effect block is under the enclosing one) *)
+Theorem C18_settled_always : forall pre : list token_type, settled_after pre.
+Proof. exact settled_always. Qed.
+Print Assumptions C18_settled_always.
 
-(* that hypothesis holds, for every prefix, unless the last token before the gap that is
-   not trivia or a blank-line separator is the end of a side-effect block *)
-Theorem C18_settled_unless_block_end : forall pre : list token_type,
-  not_after_block_end pre = true -> settled_after pre.
-Proof. exact settled_unless_block_end. Qed.
-Print Assumptions C18_settled_unless_block_end.
-
-Theorem C18_trivia_runs_equivalent_unless_block_end : forall pre post : list token_type,
-  has_sig pre = true -> has_sig post = true -> not_after_block_end pre = true ->
-  trivia_runs_equivalent_at pre post.
-Proof. exact trivia_runs_equivalent_unless_block_end. Qed.
-Print Assumptions C18_trivia_runs_equivalent_unless_block_end.
-
-(* right after a side-effect block: every prefix of at most six tokens over the block
-   alphabet / four tokens over the representative alphabet (enumeration of the settled
-   condition only); what follows the gap is arbitrary *)
-Theorem C18_trivia_runs_equivalent_prefix_6_block : forall pre post : list token_type,
-  length pre <= 6 -> (forall t, In t pre -> In t block_alphabet) ->
-  has_sig pre = true -> has_sig post = true -> trivia_runs_equivalent_at pre post.
-Proof. exact trivia_runs_equivalent_prefix_6_block. Qed.
-Print Assumptions C18_trivia_runs_equivalent_prefix_6_block.
-
-Theorem C18_trivia_runs_equivalent_prefix_4_rep : forall pre post : list token_type,
-  length pre <= 4 -> (forall t, In t pre -> In t rep_alphabet) ->
-  has_sig pre = true -> has_sig post = true -> trivia_runs_equivalent_at pre post.
-Proof. exact trivia_runs_equivalent_prefix_4_rep. Qed.
-Print Assumptions C18_trivia_runs_equivalent_prefix_4_rep.
+(* between the same tokens, two trivia runs of the same kind are indistinguishable: every
+   token list, only the two "not at the end of the program" hypotheses *)
+Theorem C18_trivia_runs_full : forall pre post : list token_type,
+  has_sig pre = true -> has_sig post = true ->
+  forall d d' : list token_type,
+    trivia_run d = true -> trivia_run d' = true -> has_ws d = has_ws d' ->
+    opt_gtree_eqb (parse_tree (pre ++ d ++ post)) (parse_tree (pre ++ d' ++ post)) = true.
+Proof. exact trivia_runs_statement_holds. Qed.
+Print Assumptions C18_trivia_runs_full.
 
 (* the named rewrites: an annotation (or comment line) next to whitespace is invisible *)
-Theorem C18_annotation_next_to_whitespace : forall (pre post : list token_type) (a : token_type),
-  has_sig pre = true -> has_sig post = true -> settled_after (drop_while_trim pre) ->
-  is_annotation_tok a = true ->
+Theorem C18_annotation_next_to_whitespace_full : forall (pre post : list token_type) (a : token_type),
+  has_sig pre = true -> has_sig post = true -> is_annotation_tok a = true ->
   opt_gtree_eqb (parse_tree (pre ++ [TT_Whitespace] ++ post))
                 (parse_tree (pre ++ [TT_Whitespace; a; TT_Whitespace] ++ post)) = true /\
   opt_gtree_eqb (parse_tree (pre ++ [TT_Whitespace] ++ post))
                 (parse_tree (pre ++ [a; TT_Whitespace] ++ post)) = true /\
   opt_gtree_eqb (parse_tree (pre ++ [TT_Whitespace] ++ post))
                 (parse_tree (pre ++ [TT_Whitespace; a] ++ post)) = true.
-Proof. exact annotation_next_to_whitespace. Qed.
-Print Assumptions C18_annotation_next_to_whitespace.
+Proof. exact annotation_next_to_whitespace_always. Qed.
+Print Assumptions C18_annotation_next_to_whitespace_full.
 
 (* ... and any number of adjacent whitespace tokens behaves as one *)
-Theorem C18_whitespace_repetition : forall (pre post : list token_type) (k : nat),
-  has_sig pre = true -> has_sig post = true -> settled_after (drop_while_trim pre) ->
+Theorem C18_whitespace_repetition_full : forall (pre post : list token_type) (k : nat),
+  has_sig pre = true -> has_sig post = true ->
   opt_gtree_eqb (parse_tree (pre ++ [TT_Whitespace] ++ post))
                 (parse_tree (pre ++ repeat TT_Whitespace (S k) ++ post)) = true.
-Proof. exact whitespace_repetition. Qed.
-Print Assumptions C18_whitespace_repetition.
+Proof. exact whitespace_repetition_always. Qed.
+Print Assumptions C18_whitespace_repetition_full.
 
 (* an annotation or comment line inserted ANYWHERE inside an accepted program (with or
    without whitespace in that gap, e.g. a comment line right after a blank line): still
    accepted, same tree.  One direction only: `5 []()` is a composition error while
    `5 []@a()` is accepted (example below) *)
-Theorem C18_annotation_insert : forall (pre post : list token_type) (a : token_type) (t : gtree),
-  has_sig pre = true -> has_sig post = true -> settled_after (drop_while_trim pre) ->
-  is_annotation_tok a = true ->
-  parse_tree (pre ++ post) = Some t -> parse_tree (pre ++ [a] ++ post) = Some t.
-Proof. exact annotation_insert. Qed.
-Print Assumptions C18_annotation_insert.
-
-Theorem C18_annotation_insert_unless_block_end :
-  forall (pre post : list token_type) (a : token_type) (t : gtree),
-  has_sig pre = true -> has_sig post = true -> not_after_block_end pre = true ->
-  is_annotation_tok a = true ->
-  parse_tree (pre ++ post) = Some t -> parse_tree (pre ++ [a] ++ post) = Some t.
-Proof. exact annotation_insert_unless_block_end. Qed.
-Print Assumptions C18_annotation_insert_unless_block_end.
-
-Theorem C18_annotation_insert_prefix_6_block :
-  forall (pre post : list token_type) (a : token_type) (t : gtree),
-  length pre <= 6 -> (forall x, In x pre -> In x block_alphabet) ->
+Theorem C18_annotation_insert_full : forall (pre post : list token_type) (a : token_type) (t : gtree),
   has_sig pre = true -> has_sig post = true -> is_annotation_tok a = true ->
   parse_tree (pre ++ post) = Some t -> parse_tree (pre ++ [a] ++ post) = Some t.
-Proof. exact annotation_insert_prefix_6_block. Qed.
-Print Assumptions C18_annotation_insert_prefix_6_block.
-
-(* full statement for gaps that already hold trivia (no settled hypothesis): NOT proved;
-   what is missing is the settled condition right after the end of a side-effect block
-   for prefixes beyond the two enumerations above *)
-Definition C18_trivia_runs_full_statement : Prop := C18_trivia_runs_statement.
+Proof. exact annotation_insert_always. Qed.
+Print Assumptions C18_annotation_insert_full.
 
 (* non-vacuity.  `(5+a) 7 (b,3)`: 13 tokens, two groups, a space list of three items.  The
    hypotheses of the unbounded theorem hold at its first gap, the program is accepted, and
@@ -163,7 +125,7 @@ Definition ex_pre : list token_type :=
 Definition ex_post : list token_type :=
   [TT_Number; TT_Whitespace; TT_StartGroup; TT_Identifier; TT_Comma; TT_Number; TT_EndGroup].
 Example C18_ex_unbounded_hypotheses :
-  has_sig ex_pre = true /\ has_sig ex_post = true /\ not_after_block_end ex_pre = true /\
+  has_sig ex_pre = true /\ has_sig ex_post = true /\
   trivia_run [TT_Whitespace; TT_LineAnnotation; TT_Whitespace] = true /\
   parse_tree (ex_pre ++ [TT_Whitespace] ++ ex_post) <> None /\
   (exists l x r, parse_tree (ex_pre ++ [TT_Whitespace] ++ ex_post) = Some (GN D_List (GN D_List l x) r)).
@@ -175,15 +137,20 @@ Example C18_ex_unbounded_instance :
   opt_gtree_eqb (parse_tree (ex_pre ++ [TT_Whitespace] ++ ex_post))
                 (parse_tree (ex_pre ++ [TT_Whitespace; TT_LineAnnotation; TT_Whitespace] ++ ex_post)) = true.
 Proof.
-  apply C18_trivia_runs_equivalent_unless_block_end; reflexivity.
+  apply C18_trivia_runs_full; reflexivity.
 Qed.
-(* a gap right after a side-effect block, through the general theorem: `5 [1] 7 (2)` *)
+(* a gap right after a side-effect block: `5 [1] 7 (2)` with a comment in the gap after `]` *)
+Definition ex_pre3 : list token_type :=
+  [TT_Number; TT_Whitespace; TT_StartSideEffect; TT_Number; TT_EndSideEffect].
+Definition ex_post3 : list token_type := [TT_Number; TT_Whitespace; TT_StartGroup; TT_Number; TT_EndGroup].
 Example C18_ex_after_block :
-  settled_after (drop_while_trim [TT_Number; TT_Whitespace; TT_StartSideEffect; TT_Number; TT_EndSideEffect]) /\
-  not_after_block_end [TT_Number; TT_Whitespace; TT_StartSideEffect; TT_Number; TT_EndSideEffect] = false /\
-  parse_tree ([TT_Number; TT_Whitespace; TT_StartSideEffect; TT_Number; TT_EndSideEffect] ++ [TT_Whitespace]
-              ++ [TT_Number; TT_Whitespace; TT_StartGroup; TT_Number; TT_EndGroup]) <> None.
-Proof. vm_compute. repeat split; try reflexivity; discriminate. Qed.
+  parse_tree (ex_pre3 ++ [TT_Whitespace] ++ ex_post3) <> None /\
+  opt_gtree_eqb (parse_tree (ex_pre3 ++ [TT_Whitespace] ++ ex_post3))
+                (parse_tree (ex_pre3 ++ [TT_Whitespace; TT_Annotation; TT_Whitespace] ++ ex_post3)) = true.
+Proof.
+  split; [vm_compute; discriminate|].
+  apply C18_trivia_runs_full; reflexivity.
+Qed.
 (* the comparison is discriminating: replacing the whitespace by an annotation alone (a
    run of the other kind) or removing it is NOT covered and does change the outcome; and
    at the end of the program an annotation is not transparent (it shields the blank-line
@@ -200,20 +167,20 @@ Example C18_ex_discriminating :
 Proof. vm_compute. repeat split; try reflexivity; discriminate. Qed.
 
 (* `(5+a) 7 <blank line> (b,3)` with a comment line put right after the blank line (no
-   whitespace in that gap): hypotheses of C18_annotation_insert_unless_block_end hold, the
+   whitespace in that gap): hypotheses of C18_annotation_insert_full hold, the
    program is accepted; and the converse direction really fails *)
 Definition ex_pre2 : list token_type :=
   [TT_StartGroup; TT_Number; TT_PlusSign; TT_Identifier; TT_EndGroup; TT_Whitespace; TT_Number; TT_Subexpression].
 Definition ex_post2 : list token_type := [TT_StartGroup; TT_Identifier; TT_Comma; TT_Number; TT_EndGroup].
 Example C18_ex_insert :
-  has_sig ex_pre2 = true /\ has_sig ex_post2 = true /\ not_after_block_end ex_pre2 = true /\
+  has_sig ex_pre2 = true /\ has_sig ex_post2 = true /\
   (exists l r, parse_tree (ex_pre2 ++ ex_post2) = Some (GN D_Subexpression l r)) /\
   parse_tree (ex_pre2 ++ [TT_LineAnnotation] ++ ex_post2) = parse_tree (ex_pre2 ++ ex_post2).
 Proof.
-  split; [reflexivity|]. split; [reflexivity|]. split; [reflexivity|]. split.
+  split; [reflexivity|]. split; [reflexivity|]. split.
   - vm_compute. eexists _, _. reflexivity.
   - destruct (parse_tree (ex_pre2 ++ ex_post2)) as [t|] eqn:E; [|vm_compute in E; discriminate E].
-    apply (C18_annotation_insert_unless_block_end ex_pre2 ex_post2 TT_LineAnnotation t); try reflexivity. exact E.
+    apply (C18_annotation_insert_full ex_pre2 ex_post2 TT_LineAnnotation t); try reflexivity. exact E.
 Qed.
 Example C18_ex_insert_one_direction :
   parse_tree [TT_Number; TT_Whitespace; TT_StartSideEffect; TT_EndSideEffect; TT_StartGroup; TT_EndGroup] = None /\
